@@ -9,16 +9,18 @@ def record_events(items, work, name="ev", script="events.py", py=None, env=None,
     """Run the items through the real API in parallel shards (order preserved)."""
     n = shards or max(1, min(NCPU, len(items) // 50 + 1))
     n = max(1, min(n, len(items)))
-    shards = [items[k::n] for k in range(n)]
+    # contiguous blocks: neighbouring items (e.g. a vector and its re-spelled twin) run in the same interpreter process
+    size = (len(items) + n - 1) // n
+    shards = [items[k * size:(k + 1) * size] for k in range(n)]
+    shards = [sh for sh in shards if sh]
     jobs = [{"out": os.path.join(work, "%s.%d.out" % (name, k)), "items": sh} for k, sh in enumerate(shards)]
     run_driver(script, jobs, work, name=name, py=py, env=env)
-    outs = []
+    merged = []
     for j in jobs:
-        outs.append(json.load(open(j["out"])))
+        merged += json.load(open(j["out"]))
         os.remove(j["out"])
-    merged = [None] * len(items)
-    for k, o in enumerate(outs):
-        merged[k::n] = o
+    if len(merged) != len(items):
+        raise MachineryError("driver %s returned %d results for %d items" % (script, len(merged), len(items)))
     return merged
 
 
